@@ -5,17 +5,17 @@ ROOT = os.path.dirname(os.path.dirname(os.path.abspath(__file__)))
 
 PY = "/venv/bin/python"
 CLAIMED = {
- "C03": ("§6 C03", "H,R,F", "seeded history simulation + postcondition oracle after every successful fit"),
- "C04": ("§6 C04", "H", "seeded history simulation against a threshold-history reference model"),
+ "C03": ("§6 C03, §12.1", "H,R,F", "seeded history simulation (incl. fits interrupted at a drawn line event and then repeated, forced eigensolver failures) + postcondition oracle after every successful fit"),
+ "C04": ("§6 C04, §12.1", "H", "seeded history simulation against a threshold-history reference model (last writer per handle, across queries, failed writers, restarts and other handles) and an independent evaluation of the learned distance"),
  "C05": ("§6 C05", "F,H", "seeded simulation with fault injection at the preprocessor seam; twin-estimator reference"),
- "C07": ("§6 C07", "R", "seeded simulation of the PRNG draw stream and ambient state; soundness predicates over returned constraints"),
- "C08": ("§6 C08", "R", "seeded simulation of PRNG streams/ambient state; differential reference (base learner on Constraints output)"),
- "C09": ("§6 C09", "R,F", "seeded simulation of the ARPACK seam (start vector, forced non-convergence) against O(n^2) reference formulas"),
- "C13": ("§6 C13", "F,R", "seeded simulation with fault injection at the graphical-lasso seam; lower-objective witness from an independent solver"),
+ "C07": ("§6 C07, §12.1", "R,H", "seeded simulation of the PRNG draw stream (integer seeds, recorded and scripted draw programs), ambient state and call histories on one live Constraints object; soundness predicates over returned constraints"),
+ "C08": ("§6 C08, §12.1", "R,H", "seeded simulation of PRNG streams/ambient state/earlier fits; differential reference (base learner on oracle-formed constraints from the Constraints output) and unlabeled-points-moved repetition"),
+ "C09": ("§6 C09, §12.1", "R,F", "seeded simulation of the eigensolver seams (ARPACK start vector, forced non-convergence, forced failure of the dense solver: all three links of the fallback chain) against O(n^2) reference formulas"),
+ "C13": ("§6 C13, §12.1", "F,R,H", "seeded simulation with fault injection at the graphical-lasso seam and earlier fits of the same object; lower-objective witness from an independent solver"),
  "C15": ("§6 C15", "R", "seeded simulation with recorded and scripted PRNG draw programs against a reference dual-averaging model"),
  "C16": ("§6 C16", "H,F", "seeded history simulation; per-instance brute force over all cut-offs; empty seam trace before rejection"),
- "C17": ("§6 C17", "H,R", "seeded history simulation against a fresh-object replay reference model"),
- "C18": ("§6 C18", "H", "exhaustive (estimator x parameter) sweep + seeded set_params/clone/pickle-restart histories"),
+ "C17": ("§6 C17, §12.1", "H,R,F", "seeded history simulation (API histories, pickle restarts, ambient perturbation, caller-buffer reuse, shared stores and arrays, crash points: fits interrupted at drawn line events and crash-point sweeps) against a fresh-object replay reference model"),
+ "C18": ("§6 C18, §12.1", "H", "exhaustive (estimator x parameter) sweep + seeded set_params/clone/pickle-restart/failed-fit/interrupted-fit histories"),
  "C20": ("§6 C20", "R,F", "seeded simulation of seeds/ambient state and Cholesky/eigen fallback paths; numpy reference linear algebra"),
 }
 NA = {
@@ -57,7 +57,7 @@ for pid, (ref, dims, tech) in sorted(CLAIMED.items()):
     engine="mlsim",
     level_claimed=dict(category="exploration",
                        text=("Seeded search over simulated executions (dimensions %s: H=API-call histories incl. pickle restart, "
-                             "R=PRNG draw streams/ambient process state, F=faults at dependency seams) with an executable reference "
+                             "R=PRNG draw streams/ambient process state, F=faults at dependency seams and crash points) with an executable reference "
                              "model as oracle; every failure is shrunk and stored as an exactly replayable plan. A clean batch is "
                              "evidence, not proof." % dims),
                        design_ref=ref),
@@ -72,12 +72,14 @@ man = dict(
              source_commits=[], add_only=True),
   engines=[dict(name="mlsim", path="mlsim", serves_properties=[c["property_id"] for c in checks],
                 kind_free_text="in-process deterministic simulator: seeded plan generator, history machine over live estimators, "
-                               "seams for PRNG/preprocessor/ARPACK/graphical-lasso/clock/pickle-restart, reference-model oracles, "
+                               "seams for PRNG/preprocessor/ARPACK and dense eigensolver/graphical-lasso/clock/pickle-restart/"
+                               "crash points (sys.settrace line events inside metric_learn), reference-model oracles, "
                                "shrinker and exact replay")],
   checks=checks,
   not_applicable=sorted(na, key=lambda x: x["property_id"]),
   notes=("Family: deterministic simulation with fault injection. metric-learn has no threads, network, disk or timers; the simulated "
-         "dimensions are API-call histories (incl. pickle restarts), PRNG draw streams/ambient state and failures at dependency seams. "
+         "dimensions are API-call histories (incl. pickle restarts and caller-buffer reuse), PRNG draw streams/ambient state, failures at "
+         "dependency seams and interruption of a running fit at an arbitrary line (crash point). "
          "Properties that are pure functions of their input are listed as not applicable (DESIGN §3, §7). "
          "Exit codes: 0 held, 1 VIOLATION, 2 HARNESS-ERROR. Env: VERIF_SEED, VERIF_TIER, VERIF_REPO (default /repo), VERIF_JOBS."))
 with open(os.path.join(ROOT, "MANIFEST.json"), "w") as f:
